@@ -272,7 +272,7 @@ VARIANTS = [
     Variant('solver-uses-air-temperature', 'break', [(TCF, 'get_velocity_for_temp(shot_info.atmo.powder_temp)', 'get_velocity_for_temp(shot_info.atmo.temperature)')], 'C17.R4', 'positive control', 'caught'),
     Variant('solver-reads-mv', 'break', [(TCF, 'self.muzzle_velocity = shot_info.ammo.get_velocity_for_temp(shot_info.atmo.powder_temp) >> Velocity.FPS', 'self.muzzle_velocity = shot_info.ammo.mv >> Velocity.FPS')], 'C17.R4', 'positive control', 'caught'),
     Variant('disabled-path-weakened', 'break', [(MUN, '        if not self.use_powder_sensitivity:\n            return self.mv\n', '        if not self.use_powder_sensitivity and not self.temp_modifier:\n            return self.mv\n')], 'C17.R1', 'positive control', 'caught'),
-    Variant('atmo-powder-fallback-always', 'break', [(CON, 'PreferredUnits.temperature(powder_t or self.temperature)', 'PreferredUnits.temperature(self.temperature)'), ], 'C17.R4'),
+    Variant('atmo-powder-fallback-always', 'break', [(CON, 'PreferredUnits.temperature(self.temperature if powder_t is None else powder_t)', 'PreferredUnits.temperature(self.temperature)'), ], 'C17.R4'),
     Variant('calibration-rejects-nothing', 'break', [(MUN, 'if v_delta == 0 or t_delta == 0:', 'if v_delta == 0 and t_delta == 0:')], 'C17.R3'),
     Variant('calibration-by-slower-velocity', 'break', [(MUN, 'self.temp_modifier = v_delta / t_delta * (15 / v0)', 'self.temp_modifier = v_delta / t_delta * (15 / min(v0, v1))')], 'C17.R3', 'the defect repaired by 5912e58'),
     Variant('calibration-abs-deltas', 'break', [(MUN, 'v_delta = v1 - v0\n', 'v_delta = abs(v1 - v0)\n')], 'C17.R3', 'signs dropped'),
